@@ -170,7 +170,13 @@ class static_view:
             # a package-root spec ("pkg:") has an empty docroot: the resource
             # name must then stay relative, not begin with a slash
             resource_path = f'{docroot}/{path}' if docroot else path
-            if resource_isdir(self.package_name, resource_path):
+            try:
+                is_dir = resource_isdir(self.package_name, resource_path)
+            except ValueError:
+                # pkg_resources refuses names it considers absolute (a
+                # leading backslash or a drive letter): no such resource
+                raise HTTPNotFound('Out of bounds: %s' % request.url)
+            if is_dir:
                 if not request.path_url.endswith('/'):
                     raise self.add_slash_redirect(request)
                 resource_path = '{}/{}'.format(
